@@ -74,6 +74,25 @@ def probe_phase(chk):
     chk.mark("probes")
 
 
+def fk_relevant(d, act, hist):
+    # C09 for FOREIGN KEY: acceptance both ways, the declared effect of the delete action, no dangling reference ever
+    if d["kind"] in ("accepts_invalid", "rejects_valid", "dangling_reference", "panic"):
+        return True
+    if d["kind"] in ("state", "affected_count"):
+        return hist[-1]["ok"] and d.get("basis", "model_post") == "model_post" and hist[-1]["op"]["k"] in ("del_p", "upd_p_key", "upd_c_fk", "ins_c", "rollback")
+    return False
+
+
+def fk_phase(chk):
+    """FOREIGN KEY (ForeignKey.tla): p / c with ON DELETE noaction | restrict | cascade | setnull, every transition of
+    depth 4 (5 thorough) incl. multi-row statements, key updates, BEGIN / ROLLBACK and reopen"""
+    import fkrun
+    st = fkrun.phase(chk, fk_relevant)
+    chk.cov["foreign_key"] = st
+    chk.cov["traces_validated_against_impl"] += st["replayed"]
+    chk.mark("foreign_key")
+
+
 def run(chk):
     relrun.standard(chk, relevant, signature)
     cov = chk.cov
@@ -81,7 +100,13 @@ def run(chk):
     chk.mark("upsert")
     probe_phase(chk)
     chk.cov["upsert"] = cov["upsert"]
+    fk_phase(chk)
 
 
 def replay(chk, path):
+    import json
+    rep = json.load(open(path))["replay"]
+    if "fk_hist" in rep:
+        import fkrun
+        return fkrun.replay(chk, rep, fk_relevant)
     return relrun.replay_file(chk, path, relevant, signature)
